@@ -587,11 +587,26 @@ def oracle_matcher(rng, n, stats):
 
 
 # ------------------------------------------------------------------ C07 join = filter_tables ; apply_matcher
+def bag_pipeline_corpus_case():
+    """known finding K6: with a tokenizer left in BAG mode the filters count repeated tokens while the join converts to
+    sets — jaccard_join('a a a a b', 'a b') at 0.8 returns the pair (score 1.0), SizeFilter.filter_tables drops it"""
+    ts = TokSpec('ws', return_set=False)
+    L = pd.DataFrame({'id': [1], 'attr': pd.Series(['a a a a b'], dtype=object)})
+    R = pd.DataFrame({'id': [7], 'attr': pd.Series(['a b'], dtype=object)})
+    kw = {'comp_op': '>=', 'allow_empty': True, 'n_jobs': 1}
+    return 'jaccard', ts, L, R, 'id', 'id', 'attr', 'attr', 0.8, kw
+
+
 def oracle_pipeline(rng, n, stats):
     v = []
-    for _ in range(n):
+    for it in range(n + 1):
         which = rng.choice(['jaccard', 'cosine', 'dice', 'edit_distance'])
-        which, ts, L, R, lk, rk, la, ra, t, kw = gen_join_case(rng, stats, which)
+        if it == 0:
+            which, ts, L, R, lk, rk, la, ra, t, kw = bag_pipeline_corpus_case()
+        else:
+            which, ts, L, R, lk, rk, la, ra, t, kw = gen_join_case(rng, stats, which)
+        # the tokenizer "as supplied": a py_stringmatching tokenizer is in bag mode unless return_set=True was asked for
+        bag_mode = which != "edit_distance" and (it == 0 or (not ts.obj.get_return_set() and rng.random() < 0.3))
         kw.update({'allow_missing': False, 'l_out_attrs': None, 'r_out_attrs': None, 'out_sim_score': True})
         kw.pop('l_out_prefix', None)
         kw.pop('r_out_prefix', None)
@@ -610,8 +625,8 @@ def oracle_pipeline(rng, n, stats):
                 C = F.filter_tables(L, R, lk, rk, la, ra, n_jobs=rng.choice([1, 2]), show_progress=False)
                 P = ssj.apply_matcher(C, 'l_' + lk, 'r_' + rk, L, R, lk, rk, la, ra, None, LEV, tau, kw['comp_op'], n_jobs=rng.choice([1, 2]), show_progress=False)
             else:
-                ts.obj.set_return_set(True)
-                fk = rng.choice(['size', 'prefix', 'position', 'overlap'])
+                ts.obj.set_return_set(not bag_mode)
+                fk = 'size' if it == 0 else rng.choice(['size', 'prefix', 'position', 'overlap'])
                 if fk == 'overlap':
                     from py_stringsimjoin.filter.overlap_filter import OverlapFilter
                     F = OverlapFilter(ts.obj, 1)
@@ -626,6 +641,7 @@ def oracle_pipeline(rng, n, stats):
         pp = dict(zip(out_pairs(P, 'l_' + lk, 'r_' + rk), P['_sim_score'])) if len(P) else {}
         lval, rval = dict(zip(L[lk], L[la])), dict(zip(R[rk], R[ra]))
         case['first_stage'] = fk
+        case['bag_mode'] = bool(bag_mode)
         for p in set(jp) | set(pp):
             ls, rs = lval[p[0]], rval[p[1]]
             if which == 'edit_distance':
@@ -641,6 +657,15 @@ def oracle_pipeline(rng, n, stats):
             if not lt and not rt:
                 continue
             raw = SIMS[which](set(lt), set(rt))
+            if bag_mode:
+                bl, br = ts.tokens(ls, False), ts.tokens(rs, False)
+                repeats = len(bl) != len(set(bl)) or len(br) != len(set(br))
+                if repeats:
+                    if (p in jp) != (p in pp) or (p in jp and round(float(pp[p]), 4) != float(jp[p])):
+                        v.append(viol('C07', 'bag-mode tokenizer: join (on sets) and %s-filter pipeline (on bags) disagree on a pair with repeated tokens' % fk,
+                                      dict(case, bag_mode_repeats=True, pair=[str(p[0]), str(p[1])]), p in pp, p in jp))
+                    continue
+                lt, rt = bl, br
             raw_list = SIMS[which](lt, rt)      # what apply_matcher computes: py_stringmatching on the token LISTS
             op = OPS[kw['comp_op']]
             if op(raw, t) != op(round(raw, 4), t) or op(raw_list, t) != op(round(raw_list, 4), t):
